@@ -110,7 +110,7 @@ static void on_fault(int s, siginfo_t *si, void *ucv) {
   siglongjmp(env, 1);
 }
 
-static void on_alarm(int s) { (void)s; if (phase) { phase = 0; out.kind = 1; out.signo = SIGALRM; out.rip = 0; out.addr = 0; siglongjmp(env, 1); } }
+static void on_alarm(int s) { (void)s; if (phase) { phase = 0; out.kind = 1; out.signo = SIGVTALRM; out.rip = 0; out.addr = 0; siglongjmp(env, 1); } }
 
 static uint8_t *lowm = (uint8_t *)LOW_BASE, *highm = (uint8_t *)HIGH_BASE, *codem = (uint8_t *)CODE_BASE;
 static uint8_t shadow[2][REG_SIZE];
@@ -142,13 +142,13 @@ static void run_one(test_t *t, FILE *o) {
   cur = t; prepare(t);
   struct itimerval it = { {0, 0}, {1, 0} }, off = { {0, 0}, {0, 0} };
   if (sigsetjmp(env, 1) == 0) {
-    setitimer(ITIMER_REAL, &it, NULL);
+    setitimer(ITIMER_VIRTUAL, &it, NULL);   /* CPU time of this process: immune to scheduling stalls */
     /* make the SSE state "in use" so that the signal frame carries it */
     __asm__ volatile ("pcmpeqd %%xmm0, %%xmm0\n\tpcmpeqd %%xmm15, %%xmm15" ::: "xmm0", "xmm15");
     raise(SIGUSR1);
     _exit(69);   /* not reached: the handler redirects control into the test */
   }
-  setitimer(ITIMER_REAL, &off, NULL);
+  setitimer(ITIMER_VIRTUAL, &off, NULL);
   if (out.kind == 1) { fprintf(o, "R %ld SIG %d %lx %lx\n", t->id, out.signo, out.rip, out.addr); }
   else {
     fprintf(o, "R %ld OK %lx %lx", t->id, out.rip, out.rflags & FLAG_MASK);
@@ -182,7 +182,7 @@ static void worker(long from, int fd) {
   sa.sa_sigaction = on_fault;
   sigaction(SIGSEGV, &sa, NULL); sigaction(SIGILL, &sa, NULL); sigaction(SIGFPE, &sa, NULL);
   sigaction(SIGTRAP, &sa, NULL); sigaction(SIGBUS, &sa, NULL);
-  struct sigaction sb; memset(&sb, 0, sizeof sb); sb.sa_handler = on_alarm; sb.sa_flags = SA_ONSTACK | SA_NODEFER; sigaction(SIGALRM, &sb, NULL);
+  struct sigaction sb; memset(&sb, 0, sizeof sb); sb.sa_handler = on_alarm; sb.sa_flags = SA_ONSTACK | SA_NODEFER; sigaction(SIGVTALRM, &sb, NULL);
   for (long i = from; i < ntests; i++) run_one(&tests[i], o);
   fflush(o); _exit(0);
 }
